@@ -1,5 +1,7 @@
-"""C07 source translation: the scanner functions and the generator _tokenize of myst_parser/parsers/options.py
--> coq/Gen/OptSrc.v  (the generator: class TokFn below, writer monad `wres` of coq/Opt/OptModel.v).
+"""C07 source translation of myst_parser/parsers/options.py -> coq/Gen/OptSrc.v: class StreamBuffer (SbFn),
+TokenizeError.clone (translate_clone), the scanner functions (Fn), the generator _tokenize (TokFn, writer monad `wres`
+of coq/Opt/OptModel.v), _to_tokens and options_to_items (PairFn, writer `gw` of coq/Opt/OptSrcLib.v); every function
+is emitted twice: `<fn>_src` over the stream primitives of OptModel.v and `<fn>_full` over the translated StreamBuffer.
 
 A fail-closed walker for the idioms of options.py (own walker, in the spirit of gen/py2coq.py): every scanner function is
 translated statement by statement into the `res` monad of coq/Base/Res.v over the hand-modelled StreamBuffer primitives
